@@ -49,6 +49,51 @@ def mac(a, b):
 
 
 # ----------------------------------------------------------------------------------------------------------------
+# generic input forms: read-only arrays, NumPy-scalar option values, storage dtypes
+# (established on the unchanged tree: every form below is accepted by every entry point it is used with; NOT accepted and
+#  therefore not used: a NumPy integer as the int `order` of mpe - SSI_mpe tests isinstance(order, int))
+# ----------------------------------------------------------------------------------------------------------------
+INT_FORMS = ("int", "np.int64", "np.int32", "arange-element", "0-d array")
+FLOAT_FORMS = ("float", "np.float64", "0-d array", "np.float32")
+BOOL_FORMS = ("bool", "int", "np.bool_")
+
+
+def int_form(v, i):
+    f = INT_FORMS[i % len(INT_FORMS)]
+    v = int(v)
+    return {"int": v, "np.int64": np.int64(v), "np.int32": np.int32(v), "arange-element": np.arange(v + 1)[v], "0-d array": np.array(v)}[f]
+
+
+def float_form(v, i):
+    f = FLOAT_FORMS[i % len(FLOAT_FORMS)]
+    v = float(v)
+    if f == "np.float32" and float(np.float32(v)) != v:  # only the same value in another form
+        f = "np.float64"
+    return {"float": v, "np.float64": np.float64(v), "0-d array": np.array(v), "np.float32": np.float32(v)}[f]
+
+
+def fs_form(v, i):
+    """the sampling frequency of a setup object: Python float / np.float64 / np.float32 (a 0-d array is refused by scipy.signal.butter
+    inside filter_data, also on the unchanged tree, so it is not an accepted form there)"""
+    return float_form(v, i + 1 if i % 4 == 2 else i)
+
+
+def bool_form(v, i):
+    f = BOOL_FORMS[i % len(BOOL_FORMS)]
+    return {"bool": bool(v), "int": int(bool(v)), "np.bool_": np.bool_(v)}[f]
+
+
+def readonly(a):
+    """the harness' own copy, presented read-only (as np.load(mmap_mode='r') / np.broadcast_to would)"""
+    a = np.array(a, copy=True)
+    a.setflags(write=False)
+    return a
+
+
+INT_DTYPES = ("int32", "int64", "uint16", "int16", "uint8")
+
+
+# ----------------------------------------------------------------------------------------------------------------
 # (i) the split
 # ----------------------------------------------------------------------------------------------------------------
 def coq_nat_list(xs):
@@ -84,7 +129,7 @@ def parse_split(s):
     return ("ok", out)
 
 
-REF_FORMS = ("lists", "arrays", "tuples", "ndarray2d", "int32")
+REF_FORMS = ("lists", "arrays", "tuples", "ndarray2d", "int32", "np.int64-elements")
 
 
 def as_form(reflists, form):
@@ -98,6 +143,8 @@ def as_form(reflists, form):
         return tuple(tuple(r) for r in rl)
     if form == "int32":
         return [np.array(r, dtype=np.int32) for r in rl]
+    if form == "np.int64-elements":  # Python lists whose elements are NumPy integers (elements of np.arange)
+        return [[np.arange(x + 1)[x] for x in r] for r in rl]
     if form == "ndarray2d":
         if not rl or len(set(len(r) for r in rl)) != 1 or len(rl[0]) == 0:
             return None
@@ -112,9 +159,16 @@ def refs_intact(given, reflists):
         return False
 
 
-def run_impl_split(datasets, reflists, form="lists"):
-    """-> (result, arguments intact after the call)"""
-    given_d, given_r = [d.copy() for d in datasets], as_form(reflists, form)
+def run_impl_split(datasets, reflists, form="lists", ro=False):
+    """-> (result, arguments intact after the call).  ro: every array argument is presented read-only."""
+    given_d, given_r = [readonly(d) if ro else d.copy() for d in datasets], as_form(reflists, form)
+    if ro:
+        if isinstance(given_r, np.ndarray):
+            given_r.setflags(write=False)
+        else:
+            for g in given_r:
+                if isinstance(g, np.ndarray):
+                    g.setflags(write=False)
     try:
         Y = gen.pre_multisetup(given_d, given_r)
         out = ("ok", [(np.array(s["ref"]), np.array(s["mov"])) for s in Y])
@@ -217,8 +271,12 @@ def part_split(ctx, corpus):
         ctx.hist("split_stream", "multi")
     exprs = [split_expr(ds, rl) for _, ds, rl in cases]
     res = ctx.coq_eval(HEADER, exprs, shard=40)
-    for (case, ds, rl), s in zip(cases, res):
-        impl, intact = run_impl_split(ds, rl)
+    for ci, ((case, ds, rl), s) in enumerate(zip(cases, res)):
+        ro0 = ci % 2 == 1 or bool(case.get("readonly"))
+        if ro0:
+            case = dict(case, readonly=True)
+        ctx.hist("split_readonly", ro0)
+        impl, intact = run_impl_split(ds, rl, ro=ro0)
         if not intact:
             ctx.fail("oracle", "pre_multisetup changes the datasets / reference lists it is given", case, key="C03:pre_multisetup:mutates-input")
         model = parse_split(s)
@@ -228,17 +286,40 @@ def part_split(ctx, corpus):
         check_split_case(ctx, case, ds, rl, impl, model)
         # the same reference lists in every other accepted container form: the same split
         if len(rl) >= len(ds) and all(valid_refs(d.shape[1], r) for d, r in zip(ds, rl)):
-            for form in REF_FORMS[1:]:
+            for fi, form in enumerate(REF_FORMS[1:]):
                 if as_form(rl, form) is None:
                     continue
-                case_f = dict(case, ref_form=form)
-                impl_f, intact_f = run_impl_split(ds, rl, form)
+                ro_f = (ci + fi) % 2 == 0
+                case_f = dict(case, ref_form=form, readonly=ro_f)
+                impl_f, intact_f = run_impl_split(ds, rl, form, ro=ro_f)
                 ctx.count(case_f, nontrivial=nontrivial)
                 ctx.hist("split_ref_form", form)
                 if not intact_f:
                     ctx.fail("oracle", "pre_multisetup changes the datasets / reference lists it is given (reference lists as %s)" % form, case_f,
                              key="C03:pre_multisetup:mutates-input")
                 check_split_case(ctx, case_f, ds, rl, impl_f, model)
+            # storage dtypes the property does not restrict: the records as integer counts / float32 - the same samples moved
+            dts = ([case["dtype"]] if case.get("dtype") else []) + [INT_DTYPES[ci % len(INT_DTYPES)], "float32"][:1 + ci % 2]
+            for dt in dts:
+                if dt == "float32":
+                    dsn = [d.astype(np.float32) for d in ds]
+                else:
+                    dsn = [(np.floor(np.abs(d) * 8 + np.arange(d.shape[1])[None, :] * 7 + np.arange(d.shape[0])[:, None]) % 250).astype(dt) for d in ds]
+                case_d = dict(case, dtype=dt, readonly=ci % 3 == 0, datasets=[d.tolist() for d in dsn])
+                impl_d, intact_d = run_impl_split(dsn, rl, REF_FORMS[ci % 3], ro=ci % 3 == 0)
+                ctx.count(case_d, nontrivial=nontrivial)
+                ctx.hist("split_dtype", dt)
+                if not intact_d:
+                    ctx.fail("oracle", "pre_multisetup changes the %s datasets it is given" % dt, case_d, key="C03:pre_multisetup:mutates-input")
+                if impl_d[0] != "ok":
+                    ctx.fail("oracle", "pre_multisetup raises %s on %s records" % (impl_d[0], dt), case_d, key="C03:pre_multisetup:dtype-raises")
+                    continue
+                for k2, (d, r) in enumerate(zip(dsn, rl)):
+                    ref, mov = oracle_split(d.astype(np.float64), r)
+                    if not (same_array(np.asarray(impl_d[1][k2][0], dtype=np.float64), ref) and same_array(np.asarray(impl_d[1][k2][1], dtype=np.float64), mov)):
+                        ctx.fail("oracle", "pre_multisetup on %s records: setup %d is not the listed references / ascending roving channels, samples unchanged" % (dt, k2),
+                                 case_d, key="C03:pre_multisetup:dtype")
+                        break
     ctx.sample(dict(kind="split", datasets=cases[-1][0]["datasets"], refs=cases[-1][0]["refs"]))
 
 
@@ -288,7 +369,9 @@ def part_class_data(ctx):
             form = forms[j % len(forms)]
             case["ref_form"] = form
             ctx.hist("class_ref_form", form)
-            ms = MultiSetup_PreGER(fs=fs, ref_ind=as_form(rl, form), datasets=[d.copy() for d in ds])
+            ro = j % 2 == 1
+            case["readonly"], case["option_forms"] = ro, dict(fs=type(fs_form(fs, j)).__name__, ints=INT_FORMS[(j + 1) % 5], floats=FLOAT_FORMS[(j + 2) % 4])
+            ms = MultiSetup_PreGER(fs=fs_form(fs, j), ref_ind=as_form(rl, form), datasets=[readonly(d) if ro else d.copy() for d in ds])
         except Exception as e:  # noqa: BLE001
             ctx.fail("oracle", "MultiSetup_PreGER construction raises %s on valid input" % type(e).__name__, case, key="C03:PreGER.data:init")
             continue
@@ -298,11 +381,11 @@ def part_class_data(ctx):
         for (o, arg) in steps:
             try:
                 if o == "decimate":
-                    ms.decimate_data(q=arg)
+                    ms.decimate_data(q=int_form(arg, j + 1))
                 elif o == "detrend":
                     ms.detrend_data(type=arg)
                 elif o == "filter":
-                    ms.filter_data(Wn=arg[0], order=arg[1], btype=arg[2])
+                    ms.filter_data(Wn=float_form(arg[0], j + 2), order=int_form(arg[1], j + 1), btype=arg[2])
                 elif o == "rollback":
                     ms.rollback()
             except Exception as e:  # noqa: BLE001
@@ -556,19 +639,27 @@ def same_split(Y, Y0):
     return len(Y) == len(Y0) and all(same_array(s["ref"], t["ref"]) and same_array(s["mov"], t["mov"]) for s, t in zip(Y, Y0))
 
 
-def ssi_checks(ctx, spec, method, coq_jobs):
-    """(ii): ssi.SSI_multi_setup on the oracle split; returns nothing, records failures."""
+def ssi_checks(ctx, spec, method, coq_jobs, rot=0):
+    """(ii): ssi.SSI_multi_setup on the oracle split; returns nothing, records failures.
+    rot selects the input forms: records read-only in every other case, fs / br / ordmax / step as Python or NumPy scalars."""
     datasets, A, C, Phi = build_case(spec, method)
     m, nref, nmovs, br, fs = spec["m"], spec["nref"], spec["nmovs"], spec["br"], spec["fs"]
     n = 2 * m
     nD = nref + sum(nmovs)
-    case = dict(spec, method=method)
+    ro = rot % 2 == 1 or bool(spec.get("readonly"))
+    r = int(spec.get("opt_rot", rot))
+    case = dict(spec, method=method, readonly=ro,
+                option_forms=dict(fs=FLOAT_FORMS[r % 4], br=INT_FORMS[(r + 1) % 5], ordmax=INT_FORMS[(r + 2) % 5], step=INT_FORMS[(r + 3) % 5]))
+    ctx.hist("ssi_readonly", ro)
+    ctx.hist("ssi_option_forms", "fs %s, br %s, ordmax %s" % (FLOAT_FORMS[r % 4], INT_FORMS[(r + 1) % 5], INT_FORMS[(r + 2) % 5]))
     weak = bool(spec.get("weak"))
     Y = split_all(datasets, spec)
     Y0 = snapshot(Y)
+    if ro:
+        Y = [{k: readonly(v) for k, v in s.items()} for s in Y]
     tol = case_tol(spec, Y0, br, method)
     try:
-        Obs, Al, Cl = ssi.SSI_multi_setup(Y, fs, br, n, method)
+        Obs, Al, Cl = ssi.SSI_multi_setup(Y, float_form(fs, r), int_form(br, r + 1), int_form(n, r + 2), method, step=int_form(1, r + 3))
     except Exception as e:  # noqa: BLE001
         ctx.fail("oracle", "SSI_multi_setup raises %s on noise-free records within the property's quantifier" % type(e).__name__, case,
                  key="C03:SSI_multi_setup:raises")
@@ -597,7 +688,7 @@ def ssi_checks(ctx, spec, method, coq_jobs):
     tol2 = case_tol(spec, Y0, br + 1, m2)
     try:
         Y1 = snapshot(Y)
-        _, Al2, Cl2 = ssi.SSI_multi_setup(Y, fs, br + 1, n, m2)
+        _, Al2, Cl2 = ssi.SSI_multi_setup(Y, float_form(fs, r + 1), int_form(br + 1, r + 2), int_form(n, r + 3), m2, step=int_form(1, r + 4))
         if not same_split(Y, Y1):
             ctx.fail("oracle", "SSI_multi_setup(%s) changes the reference/roving records it is given (second call)" % m2, case2,
                      key="C03:SSI_multi_setup:mutates-input")
@@ -698,6 +789,76 @@ def compare_with_model(ctx, outs, mks, case, Obs, Ah, Ch):
         ctx.fail("correspondence", "C at order 2m is not the first block row of the model's Obs_all", case, key="C03:SSI_multi_setup:model-C")
 
 
+def modes_of(Ah, Ch, spec):
+    lam, V = np.linalg.eig(np.asarray(Ah))
+    lc = np.log(lam.astype(complex)) * spec["fs"]
+    idx = [int(np.argmin(np.abs(np.abs(lc) / (2 * np.pi) - f) + 1e3 * (lc.imag < 0))) for f in spec["fn"]]
+    return np.abs(lc[idx]) / (2 * np.pi), -lc[idx].real / np.abs(lc[idx]), (np.asarray(Ch) @ V)[:, idx]
+
+
+def dtype_checks(ctx, spec, rot):
+    """storage dtypes the property does not restrict: the same records stored as integer counts (int32/int64/int16) or as float32
+    must give the result of their float64 image - exactly for integers (measured on the unchanged tree: identical), to the
+    precision float32 allows (measured: <= 2.3e-5 over 30 systems; judged at 2e-3) otherwise."""
+    datasets, A, C, Phi = build_case(spec)
+    m, br, fs = spec["m"], spec["br"], spec["fs"]
+    wanted = ([spec["dtype"]] if spec.get("dtype") else []) + [("int32", "int64", "int16")[rot % 3], "float32"]
+    for dt in wanted:
+        if dt == "float32":
+            dn = [d.astype(np.float32) for d in datasets]
+            tol = 2e-3
+        else:
+            bits = 14 if dt == "int16" else 20
+            dn = [np.round(d / np.abs(d).max() * 2 ** bits).astype(dt) for d in datasets]
+            tol = 1e-9
+        d64 = [d.astype(np.float64) for d in dn]
+        case = dict(spec, kind="dtype", dtype=dt)
+        for method in ("cov_mm", "dat"):
+            ctx.count(dict(case, method=method))
+            ctx.hist("ssi_dtype", dt)
+            try:
+                Yn = [{k: readonly(v) for k, v in s.items()} for s in split_all(dn, spec)]
+                _, Al, Cl = ssi.SSI_multi_setup(Yn, fs, br, 2 * m, method)
+                _, Bl, Dl = ssi.SSI_multi_setup(split_all(d64, spec), fs, br, 2 * m, method)
+                f1, x1, s1 = modes_of(Al[-1], Cl[-1], spec)
+                f2, x2, s2 = modes_of(Bl[-1], Dl[-1], spec)
+            except Exception as e:  # noqa: BLE001
+                ctx.fail("oracle", "SSI_multi_setup(%s) raises %s on records stored as %s" % (method, type(e).__name__, dt), dict(case, method=method),
+                         key="C03:SSI_multi_setup:dtype-raises")
+                continue
+            err = max(np.max(np.abs(f1 - f2) / f2), np.max(np.abs(x1 - x2) / np.abs(x2)), max(1 - mac(s1[:, i], s2[:, i]) for i in range(m)))
+            if not err <= tol:
+                ctx.fail("oracle", "SSI_multi_setup(%s) on records stored as %s differs from the same samples stored as float64: worst fn/xi/MAC "
+                         "deviation %.2e (tolerance %.0e)" % (method, dt, err, tol), dict(case, method=method), key="C03:SSI_multi_setup:dtype")
+        # class level, one method: MultiSetup_PreGER on the narrow records vs on their float64 image
+        method = ("cov_mm", "dat")[rot % 2]
+        res = []
+        try:
+            for dd in (dn, d64):
+                ms = MultiSetup_PreGER(fs=fs, ref_ind=[list(p) for p in spec["pos"]], datasets=[readonly(d) for d in dd])
+                kw = dict(name="a", br=br, ordmax=2 * m, ordmin=0, step=1, hc=HC_LOOSE)
+                alg = SSIcov_MS(method="cov_mm", **kw) if method == "cov_mm" else SSIdat_MS(**kw)
+                ms.add_algorithms(alg)
+                ms.run_all()
+                ms.mpe("a", sel_freq=[float(f) for f in spec["fn"]], order=2 * m)
+                res.append((np.asarray(alg.result.Fn), np.asarray(alg.result.Xi), np.asarray(alg.result.Phi)))
+                if not all(same_array(np.asarray(s["ref"], dtype=np.float64), t["ref"]) and same_array(np.asarray(s["mov"], dtype=np.float64), t["mov"])
+                           for s, t in zip(ms.data, split_all(d64, spec))):
+                    ctx.fail("oracle", "MultiSetup_PreGER.data on %s records is not the reference/roving split of the samples" % dd[0].dtype,
+                             dict(case, method=method), key="C03:e2e:dtype-data")
+            (f1, x1, s1), (f2, x2, s2) = res
+            ok = f1.shape == f2.shape == (m,) and s1.shape == s2.shape
+            err = max(np.max(np.abs(f1 - f2) / f2), np.max(np.abs(x1 - x2) / np.abs(x2)), max(1 - mac(s1[:, i], s2[:, i]) for i in range(m))) if ok else np.inf
+            ctx.count(dict(case, method=method, part="class"))
+            if not err <= tol:
+                ctx.fail("oracle", "MultiSetup_PreGER + %s_MS on records stored as %s differs from the same samples stored as float64: worst fn/xi/MAC "
+                         "deviation %.2e (tolerance %.0e)" % ("SSIcov" if method == "cov_mm" else "SSIdat", dt, err, tol), dict(case, method=method),
+                         key="C03:e2e:dtype")
+        except Exception as e:  # noqa: BLE001
+            ctx.fail("oracle", "MultiSetup_PreGER + _MS algorithm raises %s on records stored as %s" % (type(e).__name__, dt), dict(case, method=method),
+                     key="C03:e2e:dtype-raises")
+
+
 HC_LOOSE = dict(conj=True, xi_max=0.5, mpc_lim=0.0, mpd_lim=10.0, cov_max=1e9)  # hard criteria loosened: true poles must not be wiped
 
 
@@ -712,9 +873,19 @@ def e2e_object(ctx, spec, methods, order_k):
     cls_of = {"cov_mm": "SSIcov_MS", "dat": "SSIdat_MS"}
     Y0 = split_all(datasets, spec)
     given = [d.copy() for d in datasets]
+    ro = order_k % 2 == 1 or bool(spec.get("readonly"))
+    r = int(spec.get("opt_rot", order_k))
+    if ro:  # the records are presented read-only (the harness keeps `given` to compare with)
+        datasets = [readonly(d) for d in datasets]
+    case["readonly"] = ro
+    case["option_forms"] = dict(fs=type(fs_form(spec["fs"], r)).__name__, br=INT_FORMS[(r + 1) % 5], ordmax=INT_FORMS[(r + 2) % 5], ordmin=INT_FORMS[(r + 3) % 5],
+                                step=INT_FORMS[(r + 4) % 5], hc_conj=BOOL_FORMS[r % 3], hc_limits=FLOAT_FORMS[(r + 1) % 4])
+    ctx.hist("e2e_readonly", ro)
+    ctx.hist("e2e_option_forms", "br %s, hc.conj %s" % (INT_FORMS[(r + 1) % 5], BOOL_FORMS[r % 3]))
 
     def make(name, method, brr):
-        kw = dict(name=name, br=brr, ordmax=2 * m, ordmin=0, step=1, hc=HC_LOOSE)
+        hc = {k: (bool_form(v, r) if k == "conj" else float_form(v, r + 1)) for k, v in HC_LOOSE.items()}
+        kw = dict(name=name, br=int_form(brr, r + 1), ordmax=int_form(2 * m, r + 2), ordmin=int_form(0, r + 3), step=int_form(1, r + 4), hc=hc)
         return SSIcov_MS(method="cov_mm", **kw) if method == "cov_mm" else SSIdat_MS(**kw)
 
     def intact(ms, step):
@@ -776,13 +947,18 @@ def e2e_object(ctx, spec, methods, order_k):
     def request(nm, perm, alg=None, what=""):
         """alternately with the default rtol (as a user would call it) and with a tight one; every third request gives the order as a
         list; the stored pole tables of the run must be bit-unchanged by the extraction"""
-        kw = {} if nreq[0] % 2 == 0 else {"rtol": 1e-3}
-        order = 2 * m if nreq[0] % 3 != 2 else [2 * m] * len(perm)
+        q = nreq[0] + r
+        kw = {} if nreq[0] % 2 == 0 else {"rtol": float_form(1e-3, q)}
+        # the int form of `order` must be a Python int (SSI_mpe rejects NumPy integers there, also on the unchanged tree)
+        order = 2 * m if nreq[0] % 3 != 2 else [int_form(2 * m, q + j) for j in range(len(perm))]
         nreq[0] += 1
+        fl = [float(spec["fn"][i]) for i in perm]
+        sel = [fl, [np.float64(f) for f in fl], np.array(fl), tuple(fl), [np.array(f) for f in fl]][q % 5]
+        ctx.hist("mpe_sel_freq_form", ("list of float", "list of np.float64", "ndarray", "tuple", "list of 0-d arrays")[q % 5])
         ctx.hist("mpe_rtol", "default" if not kw else "1e-3")
         ctx.hist("mpe_request", "all modes" if len(perm) == m else "%d of %d modes" % (len(perm), m))
         before = {a: np.array(getattr(alg.result, a), copy=True) for a in POLES if alg is not None and getattr(alg.result, a, None) is not None}
-        ms.mpe(nm, sel_freq=[float(spec["fn"][i]) for i in perm], order=order, **kw)
+        ms.mpe(nm, sel_freq=sel, order=order, **kw)
         for a, v in before.items():
             now = np.asarray(getattr(alg.result, a))
             if now.shape != v.shape or now.dtype != v.dtype or not np.array_equal(now, v, equal_nan=True):
@@ -807,7 +983,7 @@ def e2e_object(ctx, spec, methods, order_k):
     ctx.hist("e2e_ref_form", form)
     step = "construction"
     try:
-        ms = MultiSetup_PreGER(fs=spec["fs"], ref_ind=as_form(spec["pos"], form), datasets=datasets)
+        ms = MultiSetup_PreGER(fs=fs_form(spec["fs"], r), ref_ind=as_form(spec["pos"], form), datasets=datasets)
         intact(ms, step)
         names = ["a", "b"][:len(methods)]
         algs = {nm: make(nm, me, br) for nm, me in zip(names, methods)}
@@ -859,7 +1035,9 @@ def run(ctx):
                          "one case in four with one mode 10^-2..10^-6 weaker in a later setup (tolerance 1000 eps kappa(H), not judged above 2e-2); "
                          "reference index lists in every accepted container form (lists, int64/int32 arrays, tuples, 2-D array); mpe requests in ascending, "
                          "descending, rotated and zig-zag order (triple k = the mode requested at position k), default and tight rtol, sequences of "
-                         "different request subsets on one run (single mode then all, all then a subset; pole tables bit-unchanged); one case in four "
+                         "different request subsets on one run (single mode then all, all then a subset; pole tables bit-unchanged); every other case with all "
+                         "array inputs read-only; scalar options rotating through Python / NumPy-scalar / 0-d forms; records also as int16/32/64, "
+                         "uint8/16, float32 (same result as the float64 image); one case in four "
                          "with two global modes 1-4 % apart; "
                          "non-trivial = always (>= 2 setups, gains differ); distinct by hash of the full spec")
     ctx.assumptions += [
@@ -909,7 +1087,10 @@ def run(ctx):
             ctx.count(dict(spec, method=method, part="ssi"))
             ctx.count(dict(spec, method=method, part="ssi-repeat"))
             small = spec["m"] <= 4 and spec["br"] * (spec["nref"] + sum(spec["nmovs"])) * 2 * spec["m"] <= 1000  # exact evaluation cost ~ n^4
-            ssi_checks(ctx, spec, method, coq_jobs if (len(coq_jobs) < ncoq and small and (k + (method == "dat")) % 2 == 0) else None)
+            ssi_checks(ctx, spec, method, coq_jobs if (len(coq_jobs) < ncoq and small and (k + (method == "dat")) % 2 == 0) else None,
+                       rot=k + (method == "dat"))
+        if spec.get("dtype") or (not weak and k % 5 == 0):
+            dtype_checks(ctx, spec, k)
         if weak:  # the participation is method specific: one object per method
             for method in ("cov_mm", "dat"):
                 ctx.count(dict(spec, methods=[method], part="e2e"))
